@@ -198,6 +198,9 @@ pub struct RefPeer {
     pub got_p1: Option<Vec<u8>>,
     pub got_p2: Option<Vec<u8>>,
     pub bad_version: bool,
+    /// Original handshake only: what the peer writes into bytes 4..8 ("time2": when it read the
+    /// previous packet, RTMP 1.0 section 5.2.4) of its packet 2 -- None = verbatim echo
+    pub time2: Option<[u8; 4]>,
 }
 
 impl RefPeer {
@@ -217,6 +220,7 @@ impl RefPeer {
             got_p1: None,
             got_p2: None,
             bad_version: false,
+            time2: None,
         }
     }
 
@@ -250,7 +254,13 @@ impl RefPeer {
             }
             let p1 = self.inbuf[1..1 + PKT].to_vec();
             let p2 = match self.kind {
-                PeerKind::Original => p1.clone(),
+                PeerKind::Original => {
+                    let mut e = p1.clone();
+                    if let Some(t2) = self.time2 {
+                        e[4..8].copy_from_slice(&t2);
+                    }
+                    e
+                }
                 PeerKind::Fp9 { .. } => make_p2(self.role, &p1, self.fill_seed),
             };
             out.extend_from_slice(&p2);
